@@ -42,10 +42,11 @@ func TMerc(this *SR) (forward, inverse Transformer, err error) {
 				return math.NaN(), math.NaN(), fmt.Errorf("in proj.TMerc forward: b == 0")
 			}
 			x = 0.5 * this.A * this.K0 * math.Log((1+b)/(1-b))
-			con = math.Acos(cos_phi * math.Cos(delta_lon) / math.Sqrt(1-b*b))
-			if lat < 0 {
-				con = -con
-			}
+			// atan2(sin(lat), cos(lat)*cos(delta_lon)) is the same angle as
+			// +-acos(cos(lat)*cos(delta_lon)/sqrt(1-b*b)), but the arc cosine
+			// is ill-conditioned near the equator, where its argument is 1:
+			// rounding to 1-1e-16 there moved the northing by 10 cm.
+			con = math.Atan2(sin_phi, cos_phi*math.Cos(delta_lon))
 			y = this.A * this.K0 * (con - this.Lat0)
 
 		} else {
